@@ -157,6 +157,9 @@ func c07xProperty(t *rapid.T, st *Stats) {
 			delete(unknown, d)
 		case method == "PUT":
 			if !listed[d] {
+				// an artifact push is two index saves (listed finding C09/torn-referrers-update, C11/artifact-put-not-atomic):
+				// refused after the first one the manifest is present and unlisted
+				st.Exclude("C09/torn-referrers-update: membership of the artifact of a refused push is not asserted")
 				unknown[d] = true
 			}
 		case method == "DELETE" && r.code == 202:
